@@ -16,10 +16,15 @@ class Ctx:
     def __init__(self, mod, cls, fn=None, contract=None, spec=None, depth=0):
         self.mod, self.cls, self.fn, self.contract, self.spec, self.depth = mod, cls, fn, contract, spec, depth
         self.loop_ord = [0]
+        self.defs = None
 
     def with_spec(self, spec):
         c = Ctx(self.mod, self.cls, self.fn, self.contract, spec, self.depth)
         c.loop_ord = self.loop_ord
+        c.defs = self.defs
+        for k in ("fn_old", "fn_names"):
+            if hasattr(self, k):
+                setattr(c, k, getattr(self, k))
         return c
 
 
@@ -332,9 +337,9 @@ class ExprMixin:
     def compare(self, st, op, l, r, cx):
         o = self.o
         if isinstance(op, (ast.Is, ast.Eq)):
-            return o.bool_(self.py_eq(st, l, r, isinstance(op, ast.Is)))
+            return o.bool_(self.py_eq(st, l, r, isinstance(op, ast.Is) or cx.spec is not None))
         if isinstance(op, (ast.IsNot, ast.NotEq)):
-            return o.bool_(z3.Not(self.py_eq(st, l, r, isinstance(op, ast.IsNot))))
+            return o.bool_(z3.Not(self.py_eq(st, l, r, isinstance(op, ast.IsNot) or cx.spec is not None)))
         if isinstance(op, (ast.In, ast.NotIn)):
             f = self.contains(st, l, r)
             return o.bool_(z3.Not(f) if isinstance(op, ast.NotIn) else f)
